@@ -937,23 +937,43 @@ def strict(source: str) -> richreports.report:
     """
     # Python reads "\r\n" and a bare "\r" as line breaks; the report is built line by line.
     source = source.strip().replace("\r\n", "\n").replace("\r", "\n")
-    (atok, skips) = parse(source)
-    root = atok.tree
+    try:
+        (atok, skips) = parse(source)
+        root = atok.tree
 
-    # Perform the static analyses.
-    rules(root)
-    types(root)
+        # Perform the static analyses.
+        rules(root)
+        types(root)
 
-    # Perform the abstract execution.
-    # root.body.append(ast.Expr(ast.Call(ast.Name('nada_main', ast.Load()), [], [])))
-    # ast.fix_missing_locations(root)
-    # exec(compile(root, path, 'exec'))
+        # Add the results of the analyses to the report.
+        report = richreports.report(source, line=1, column=0)
+        enrich_fromaudits(report, atok)
+        too_deep = False
+    except RecursionError:
+        # An expression nested more deeply than the (recursive) analyses can follow, e.g. a sum
+        # of a thousand terms. Nothing is claimed about such a program: every line is marked.
+        report = richreports.report(source, line=1, column=0)
+        skips = []
+        too_deep = True
 
-    # Add the results of the analyses to the report and ensure each line is
-    # wrapped as an HTML element.
-    report = richreports.report(source, line=1, column=0)
-    enrich_fromaudits(report, atok)
+    # Ensure each line is wrapped as an HTML element.
     for i, line in enumerate(report.lines):
+        if too_deep and len(line.strip()) > 0:
+            report.enrich(
+                (i + 1, 0),
+                (i + 1, len(line) - 1),
+                '<span class="rules-SyntaxRestriction">',
+                "</span>",
+                skip_whitespace=True,
+            )
+            report.enrich(
+                (i + 1, 0),
+                (i + 1, len(line) - 1),
+                '<span class="detail" data-detail="SyntaxRestriction: '
+                + 'the program is nested too deeply to be analyzed">',
+                "</span>",
+                skip_whitespace=True,
+            )
         if i in skips:
             report.enrich(
                 (i + 1, 0),
